@@ -13,6 +13,9 @@ stdout: JSON list of
                         "cited": [line, col|null] | null} } ...] }
     "derived": [ {"fn": entry point, "fs": index, "macros": bool, "inner": index into calls of the first
                   Tokenizer.parse call made by this entry point (or null), "in": [token...], "out": [token...]} ...] }
+    "raw_handovers": [ {"api": "PreFunction"|"parse_class_content", "fs", "content", "line", "col", "macros"} ...]
+      -- strengthening round 2: bodies handed over as raw source text by construction (functions, methods, decorated and
+         @lazy functions, classes): content must sit at (line, col) of file_string
       -- strengthening round 1: every OTHER tokenizer entry point that builds tokens from tokens
          (parse_func_args, parse_list, parse_js_obj, parse_component, merge_tokens, split_keyword_token,
          merge_vanilla_macro); token = [type, line, col, string, quote]
@@ -59,7 +62,7 @@ def main():
     from jmc.compile.exception import EXCEPTIONS
     from jmc.compile.header import Header
 
-    state = {"calls": None, "fs": None, "fs_idx": None, "derived": None}
+    state = {"calls": None, "fs": None, "fs_idx": None, "derived": None, "raw": None}
     orig_parse = T.Tokenizer.parse
 
     def tok_list(programs):
@@ -160,6 +163,49 @@ def main():
             k = a[1] if len(a) > 1 else kw["key_pos"]
             return [toks[k]]
         wrap("merge_vanilla_macro", mvm_in, mvm_out)
+    # ---- strengthening round 2: the hand-overs that are RAW SOURCE TEXT by construction (body of a function / method /
+    # decorated / @lazy function: PreFunction.__init__; body of a class: Lexer.parse_class_content): content, line, col, file_string
+    def record_raw(api, content, line, col, fs):
+        if state["raw"] is None or not isinstance(content, str) or not isinstance(fs, str):
+            return
+        if fs not in state["fs_idx"]:
+            state["fs_idx"][fs] = len(state["fs"])
+            state["fs"].append(fs)
+        state["raw"].append({"api": api, "fs": state["fs_idx"][fs], "content": content, "line": line, "col": col,
+                             "macros": bool(Header().macros)})
+
+    def bind_args(orig, a, kw):
+        import inspect
+        try:
+            return inspect.signature(orig).bind(*a, **kw).arguments
+        except TypeError:
+            return {}
+
+    try:
+        from jmc.compile import datapack as D
+        orig_pf_init = D.PreFunction.__init__
+
+        def pf_init(self, *a, **kw):
+            orig_pf_init(self, *a, **kw)
+            try:
+                record_raw("PreFunction", self.func_content, self.line, self.col, self.file_string)
+            except Exception:  # noqa
+                pass
+        D.PreFunction.__init__ = pf_init
+    except Exception:  # noqa
+        pass
+    try:
+        from jmc.compile import lexer as L
+        orig_pcc = L.Lexer.parse_class_content
+
+        def pcc(self, *a, **kw):
+            b = bind_args(orig_pcc, (self,) + a, kw)
+            if b:
+                record_raw("parse_class_content", b.get("class_content"), b.get("line"), b.get("col"), b.get("file_string"))
+            return orig_pcc(self, *a, **kw)
+        L.Lexer.parse_class_content = pcc
+    except Exception:  # noqa
+        pass
     signal.signal(signal.SIGALRM, _alarm)
     jobs = json.load(sys.stdin)
     real_stdout = sys.stdout
@@ -169,6 +215,7 @@ def main():
         trace = job.get("trace", True)
         state["calls"] = [] if trace else None
         state["derived"] = [] if trace else None
+        state["raw"] = [] if trace else None
         state["fs"], state["fs_idx"] = [], {}
         signal.alarm(int(job.get("timeout", 10)))
         try:
@@ -192,6 +239,7 @@ def main():
             signal.alarm(0)
         r["calls"] = state["calls"] or []
         r["derived"] = state["derived"] or []
+        r["raw_handovers"] = state["raw"] or []
         r["file_strings"] = state["fs"]
         out.append(r)
     sys.stdout = real_stdout
